@@ -86,7 +86,7 @@ func runAndCheck(t *testing.T, pd *PropDef, sc *Scenario, tape []int32) (*RunRes
 		// the run was cut off by the step budget: nothing is judged (counted in evidence)
 		return res, tr, nil, nil
 	}
-	if res.LoadErr == "" {
+	if res.LoadErr == "" || pd.JudgeLoadErr {
 		own = pd.Check(sc, res, tr)
 	}
 	// cross-property observations: panics, instance overlap
